@@ -52,6 +52,9 @@ def write_hdf5_xsec(path, tab, molname, unit='bar', variant=0):
     """variant bit 0: mol_name stored as a one-element array (as the ExoMol
     files do) instead of a scalar; bit 1: a DOI dataset is present."""
     import h5py
+    # (written beside the target and renamed over it, as another process
+    # replacing the file would: a streaming reader may hold the old one open)
+    final, path = path, path + '.part'
     with h5py.File(path, 'w') as f:
         f.create_dataset('bin_edges', data=np.array(tab['wn']))
         f.create_dataset('t', data=np.array(tab['T']))
@@ -66,6 +69,7 @@ def write_hdf5_xsec(path, tab, molname, unit='bar', variant=0):
         if variant & 2:
             f.create_dataset('DOI', data=np.array([b'10.1000/verif.%d'
                                                    % (variant,)]))
+    os.replace(path, final)
 
 
 def write_exotransmit(path, tab, order='asc', seed=0):
